@@ -310,29 +310,30 @@ package components
 //@   props C19
 //@   ensures def: pName in p.outParamPorts && res == p.outParamPorts[pName]
 
+//@ define combOutsOK(p *ParamCombinator) bool = p.outParamPorts != nil && (forall k string :: k in p.outParamPorts ==> p.outParamPorts[k] != nil && wfOutParamPort(p.outParamPorts[k]))
 //@ func (*ParamCombinator).Run$1()
 //@   props C19
-//@   requires wf: p.outParamPorts != nil && pName in p.outParamPorts && p.outParamPorts[pName] != nil && wfOutParamPort(p.outParamPorts[pName])
+//@   requires wf: combOutsOK(p) && pName in p.outParamPorts
 //@   modifies *
 //@   ensures sends-its-row-in-order-on-the-port-of-its-name[C19]: poutN[old(p.outParamPorts[pName])] == old(poutN[p.outParamPorts[pName]]) + len(old(ps)) && (forall j int :: 0 <= j && j < len(old(ps)) ==> poutAt[old(p.outParamPorts[pName])][old(poutN[p.outParamPorts[pName]]) + j] == old(ps)[j])
 //@   loop 0 invariant range: 0 <= $i && $i <= len(ps)
-//@   loop 0 invariant stable: p == old(p) && ps == old(ps) && pName == old(pName) && p.outParamPorts == old(p.outParamPorts) && p.outParamPorts[pName] == old(p.outParamPorts[pName]) && pName in p.outParamPorts && p.outParamPorts[pName] != nil && wfOutParamPort(p.outParamPorts[pName])
+//@   loop 0 invariant stable: p == old(p) && ps == old(ps) && pName == old(pName) && p.outParamPorts == old(p.outParamPorts) && p.outParamPorts[pName] == old(p.outParamPorts[pName]) && pName in p.outParamPorts && combOutsOK(p)
 //@   loop 0 invariant so-far: poutN[p.outParamPorts[pName]] == old(poutN[p.outParamPorts[pName]]) + $i && (forall j int :: 0 <= j && j < $i ==> poutAt[p.outParamPorts[pName]][old(poutN[p.outParamPorts[pName]]) + j] == ps[j])
 
 //@ define combInOK(p *ParamCombinator) bool = p.inParamPorts != nil && (forall k string :: k in p.inParamPorts ==> p.inParamPorts[k] != nil && p.inParamPorts[k].Chan != nil) && (forall k1 string, k2 string :: k1 in p.inParamPorts && k2 in p.inParamPorts && k1 != k2 ==> p.inParamPorts[k1].Chan != p.inParamPorts[k2].Chan)
 //@ func (*ParamCombinator).Run(p)
 //@   props C19
-//@   requires wf: combInOK(p) && p.outParamPorts != nil && (forall k string :: k in p.outParamPorts ==> p.outParamPorts[k] != nil && wfOutParamPort(p.outParamPorts[k])) && (forall k string :: k in p.inParamPorts ==> k in p.outParamPorts)
+//@   requires wf: combInOK(p) && combOutsOK(p) && (forall k string :: k in p.inParamPorts ==> k in p.outParamPorts)
 //@   modifies *
 //@   atcall combine every-in-port-was-read-until-closed[C19]: forall k string :: k in p.inParamPorts ==> k in inParams && chanRecvN(p.inParamPorts[k].Chan) == chanTotal(p.inParamPorts[k].Chan)
 //@   atcall combine all-keys-passed[C19]: forall k string :: k in inParams ==> exists j int :: 0 <= j && j < len(keys) && keys[j] == k
-//@   loop 0 invariant stable: p == old(p) && p.inParamPorts == old(p.inParamPorts) && p.outParamPorts == old(p.outParamPorts) && combInOK(p) && inParams != nil
+//@   loop 0 invariant stable: p == old(p) && p.inParamPorts == old(p.inParamPorts) && p.outParamPorts == old(p.outParamPorts) && combInOK(p) && combOutsOK(p) && inParams != nil && (forall k string :: k in p.inParamPorts ==> k in p.outParamPorts)
 //@   loop 0 invariant chan-same: forall k string :: k in p.inParamPorts ==> p.inParamPorts[k] == old(p.inParamPorts[k]) && p.inParamPorts[k].Chan == old(p.inParamPorts[k].Chan)
 //@   loop 0 invariant vis: forall k string :: $visited[k] ==> k in p.inParamPorts
 //@   loop 0 invariant collected: forall k string :: $visited[k] ==> k in inParams
 //@   loop 0 invariant drained: forall k string :: $visited[k] ==> chanRecvN(p.inParamPorts[k].Chan) == chanTotal(p.inParamPorts[k].Chan)
 //@   loop 0 invariant only-ports: forall k string :: k in inParams ==> $visited[k]
-//@   loop 1 invariant stable: p == old(p) && p.inParamPorts == old(p.inParamPorts) && p.outParamPorts == old(p.outParamPorts) && combInOK(p) && inParams != nil && pName in p.inParamPorts && inPort == p.inParamPorts[pName] && pName in inParams
+//@   loop 1 invariant stable: p == old(p) && p.inParamPorts == old(p.inParamPorts) && p.outParamPorts == old(p.outParamPorts) && combInOK(p) && combOutsOK(p) && inParams != nil && pName in p.inParamPorts && inPort == p.inParamPorts[pName] && pName in inParams && (forall k string :: k in p.inParamPorts ==> k in p.outParamPorts)
 //@   loop 1 invariant chan-same: forall k string :: k in p.inParamPorts ==> p.inParamPorts[k] == old(p.inParamPorts[k]) && p.inParamPorts[k].Chan == old(p.inParamPorts[k].Chan)
 //@   loop 1 invariant vis: forall k string :: $visited0[k] ==> k in p.inParamPorts
 //@   loop 1 invariant collected: forall k string :: $visited0[k] ==> k in inParams
@@ -340,6 +341,6 @@ package components
 //@   loop 1 invariant only-ports: forall k string :: k in inParams ==> $visited0[k]
 //@   loop 1 step collects-the-received-value-at-the-end-of-its-ports-list[C19]: len(inParams[pName]) >= 1 && inParams[pName][len(inParams[pName]) - 1] == newParam
 //@   loop 2 invariant keys-so-far: forall k string :: $visited[k] ==> exists j int :: 0 <= j && j < len(keys) && keys[j] == k
-//@   loop 3 invariant outs: p == old(p) && p.outParamPorts == old(p.outParamPorts) && p.outParamPorts != nil && (forall k string :: k in outIPs ==> k in p.outParamPorts && p.outParamPorts[k] != nil && wfOutParamPort(p.outParamPorts[k]))
-//@   loop 2 invariant outs-ok: p.outParamPorts == old(p.outParamPorts) && p.outParamPorts != nil && (forall k string :: k in inParams ==> k in p.outParamPorts && p.outParamPorts[k] != nil && wfOutParamPort(p.outParamPorts[k]))
-//@   loop 2 invariant drained: p == old(p) && p.inParamPorts == old(p.inParamPorts) && inParams != nil && (forall k string :: k in p.inParamPorts ==> k in inParams && chanRecvN(p.inParamPorts[k].Chan) == chanTotal(p.inParamPorts[k].Chan))
+//@   loop 2 invariant stable: p == old(p) && p.inParamPorts == old(p.inParamPorts) && p.outParamPorts == old(p.outParamPorts) && combOutsOK(p) && inParams != nil && (forall k string :: k in inParams ==> k in p.outParamPorts)
+//@   loop 2 invariant drained: forall k string :: k in p.inParamPorts ==> k in inParams && chanRecvN(p.inParamPorts[k].Chan) == chanTotal(p.inParamPorts[k].Chan)
+//@   loop 3 invariant outs: p == old(p) && p.outParamPorts == old(p.outParamPorts) && combOutsOK(p) && (forall k string :: k in outIPs ==> k in p.outParamPorts)
